@@ -2,7 +2,8 @@
 
 No top-level side effects.  Typical use from a check:
 
-    import c05_hist as H
+    import os, re
+import c05_hist as H
     rng = random.Random(seed)
     lines = [H.line(i, H.pick_mode(rng, i), H.gen_history(rng, i, H.pick_mode(rng, i), 60)) for i in range(300)]
     out = run harness with "\\n".join(lines)            (vp.run_cases survives crashes)
@@ -47,6 +48,7 @@ FOCUS_OPS = {
     "SimplifyTopology": ["bool", "split", "trim", "splitp"],
     "CleanupTopology": ["simp", "stol", "mesh", "bool"],
     "SetNormals": ["norm"],
+    "SetProperties": ["setp", "norm"],
     "SetNormalsAndCoplanar": ["orig", "warp", "warpb", "simp", "stol", "mesh"],
     "InitializeOriginal": ["orig"],
     "CreateTangents": ["smo", "smn", "smooth"],
@@ -206,11 +208,10 @@ def _ctor_man(p, d):
         # 5th field 1 = harness shifts the profile into x > 0.  KNOWN DEFECT avoided by default (key
         # revolve-axis-crossing-profile): Revolve of a profile crossing x = 0 (e.g. Circle(1.25, 8), 3 segments)
         # yields a mesh on which Refine (subdivision.cpp:676) and SmoothOut (smoothing.cpp:1022) read wild memory.
-        shift = 1 if p.avoid_known else rng.randint(0, 1)
+        shift = rng.randint(0, 1)      # axis-crossing profiles re-enabled: fixed in /repo (27e6885e, 8ff2a9bf)
         p.emit("rev:%d:%d:%d:%d:%d" % (d, s, _r(rng, 3, 8), rng.choice([24, 24, 12, 6, 18]), shift))
         p.put(d, "M", 200)
-        if not shift:
-            p.norefine.add(d)
+        # (p.norefine is no longer filled: Refine/SmoothOut on revolved circles were fixed in /repo)
 
 
 def _ctor_cs(p, d):
@@ -252,9 +253,13 @@ def _man_unary(p, k, d, s):
         # second KNOWN DEFECT avoided by default (key calculatenormals-overflow-after-setproperties0):
         # SetProperties(0) keeps stale propVert indices; a later CalculateNormals writes past properties_
         # (smoothing.cpp:572/666), e.g. "mesh:0:2 setp:3:0:0:0 norm:14:3:3:9".
-        ns = [0, 1, 3, 4, 4, 5, 6]
-        if p.avoid_known:
-            ns = [3, 4, 4, 5, 6] if s in p.taint else [1, 3, 4, 4, 5, 6]
+        # SetProperties(0) is generated again (d2226baa fixed the stale indices).  Still open at HEAD and avoided:
+        # 0 < numProp < 3 on a value carrying the CalculateNormals(0) recording (GetMeshGL overflow under ASan).
+        # The recording stays set after SetProperties(numProp < 3) (also numProp = 0 followed by CalculateCurvature):
+        # proposed fix hooks/fix_C05_2.patch; open_defects(repo) tells whether the tree still has it.
+        ns = [0, 0, 0, 1, 3, 4, 4, 5, 6]
+        if p.avoid_known and s in p.taint:
+            ns = [3, 4, 4, 5, 6]
         t = "setp:%d:%d:%d:%d" % (d, s, rng.choice(ns), _r(rng, 0, 4))
     elif k == "norm":
         t = "norm:%d:%d:%d:%d" % (d, s, rng.choice([0, 0, 0, 1, 3]), _r(rng, 0, 12))
@@ -280,7 +285,7 @@ def _man_unary(p, k, d, s):
         # transformed/derived meshes can be non-finite; RefineToTolerance then casts NaN to int (UB, INT_MIN edge
         # divisions, subdivision.cpp:543) and crashes.  With avoid_known rtol only sees Smooth() results or
         # tangent-free values.
-        if sz > 200 or (p.avoid_known and s in p.tang and s not in p.tsafe):
+        if sz > 200:      # NaN tangent lengths were fixed in /repo (b884eeea, fba555c2): no restriction any more
             return False
         t = "rtol:%d:%d:%d" % (d, s, _r(rng, 2, 16))
         nsz = sz * 4
@@ -401,6 +406,98 @@ def _pattern(p, focus_ops, budget):
         p.emit("look:%d" % b)
 
 
+def _pattern_setp0(p, budget):
+    """source with SPLIT property vertices (sharp-edged CalculateNormals of a cube / imported mesh with merge fans /
+    Boolean of propertied meshes); siblings (copy, lazy transform); SetProperties(numProp = 0) resets every halfedge's
+    property index (a write into propVert_ of the copied Impl); then look back at the source and the siblings."""
+    rng = p.rng
+    how = rng.choice(["cube", "cube", "mesh", "bool", "any"])
+    f = p.room(1)
+    if not f:
+        return
+    a = f[0]
+    if how == "cube":
+        p.emit("cube:%d:%d:%d:%d:%d" % (a, _r(rng, 1, 8), _r(rng, 1, 8), _r(rng, 1, 8), rng.randint(0, 1)))
+        p.put(a, "M", 12)
+    elif how == "mesh":
+        p.emit("mesh:%d:%d" % (a, rng.randint(0, 2)))
+        p.put(a, "M", 24)
+    else:
+        ms = p.mans(300)
+        if not ms:
+            return
+        a = rng.choice(ms)
+    src = a
+    if how in ("cube", "any", "bool") or rng.random() < 0.5:
+        f = p.room(1, keep=(a,))
+        if not f:
+            return
+        y = f[0]
+        if not _man_unary(p, "norm", y, a):
+            return
+        # make sure the sharp-angle parameter is small: every 90 degree edge of a cube is sharp => 24 property verts
+        t = p.ops[-1].split(":")
+        if t[0] == "norm":
+            t[3] = str(rng.choice([1, 1, 3]) if p.avoid_known else rng.choice([0, 0, 1, 3])); t[4] = str(rng.choice([0, 1, 2, 3]))
+            p.taint.discard(y)
+            if a in p.taint:
+                p.taint.add(y)
+            p.ops[-1] = ":".join(t)
+            if t[3] == "0":
+                p.taint.add(y)
+        src = y
+    if how == "bool":
+        f = p.room(2, keep=(a, src))
+        if f and len(f) == 2:
+            p.emit("sph:%d:%d:%d" % (f[0], _r(rng, 2, 6), 4)); p.put(f[0], "M", 32)
+            p.emit("bool:%d:%d:%d:%d:%d" % (f[1], src, f[0], rng.randint(0, 2), rng.randint(0, 1)))
+            p.put(f[1], "M", p.size.get(src, 12) + 32, src=(src, f[0]))
+            src = f[1]
+    sib = []
+    for kind in rng.sample(["cp", "tr", "force"], rng.randint(0, 3)):
+        if kind == "force":
+            p.emit("force:%d" % src)
+            continue
+        f = p.room(1, keep=(a, src) + tuple(sib))
+        if not f:
+            break
+        if kind == "cp":
+            p.emit("cp:%d:%d" % (f[0], src)); p.put(f[0], "M", p.size.get(src, 12), src=(src,))
+        else:
+            _man_unary(p, rng.choice(["tr", "rot", "sc"]), f[0], src)
+            if rng.random() < 0.6:
+                p.emit("force:%d" % f[0])
+        sib.append(f[0])
+    f = p.room(1, keep=(a, src) + tuple(sib))
+    if not f:
+        return
+    z = f[0]
+    p.emit("setp:%d:%d:0:%d" % (z, src, _r(rng, 0, 4)))
+    p.put(z, "M", p.size.get(src, 12), src=(src,))
+    if rng.random() < 0.5:
+        p.emit("force:%d" % z)
+    p.emit("look:%d" % src)
+    for x in sib:
+        if x in p.kind:
+            p.emit("look:%d" % x)
+    if a in p.kind and a != src:
+        p.emit("look:%d" % a)
+
+
+def open_defects(repo):
+    """Which of the defects the generator knows how to avoid are still present in the given tree (source probe)."""
+    out = set()
+    try:
+        src = open(os.path.join(repo, "src/manifold.cpp")).read()
+        i = src.index("Manifold Manifold::SetProperties(")
+        body = src[i:src.index("\n}\n", i)]
+        if not re.search(r"hasNormals\s*=\s*false", body):
+            out.add("getmeshgl-overflow-after-setproperties")
+    except (OSError, ValueError):
+        out.add("getmeshgl-overflow-after-setproperties")
+    return out
+
+
 def gen_history(rng, hid, mode, nsteps, focus=None, avoid_known=True):
     """Random history (list of op tokens) with <= nsteps steps and <= 12 live objects.  avoid_known=False also
     generates the trigger of the known GetMeshGL overflow (SetProperties(numProp<3) after CalculateNormals(0))."""
@@ -434,7 +531,9 @@ def gen_history(rng, hid, mode, nsteps, focus=None, avoid_known=True):
             if f:
                 _ctor_cs(p, f[0])
         elif k == "pattern":
-            if budget >= 5:
+            if budget >= 6 and (focus == "SetProperties" or rng.random() < 0.2):
+                _pattern_setp0(p, budget)
+            elif budget >= 5:
                 _pattern(p, focus_ops, budget)
         elif k == "bool":
             small = p.mans(1200)
